@@ -7,63 +7,6 @@ import Nstd.Str.LemmasQuery
 -/
 namespace Nstd.Str
 
-theorem cstrOf_append : ∀ (c : List Nat) (rest : List Byte), (∀ x ∈ c, x ≠ 0) →
-    cstrOf (c.map some ++ some 0 :: rest) = some c
-  | [], rest, _ => by simp [cstrOf]
-  | x :: t, rest, hc => by
-    have hx : x ≠ 0 := hc x (by simp)
-    simp only [List.map_cons, List.cons_append, cstrOf, hx, if_false]
-    rw [cstrOf_append t rest (fun y hy => hc y (by simp [hy]))]
-    rfl
-
-theorem allSome_eq : ∀ {a : List Byte} {c : List Nat}, allSome a = some c → a = c.map some
-  | [], c, e => by simp only [allSome, Option.some.injEq] at e; subst e; rfl
-  | none :: r, c, e => by simp [allSome] at e
-  | some x :: r, c, e => by
-    simp only [allSome, Option.map_eq_some_iff] at e
-    obtain ⟨c', hc, rfl⟩ := e
-    rw [allSome_eq hc]; rfl
-
-/-- memory that holds `a`, then a NUL -/
-theorem drop_split {mm : List Byte} {off len : Nat} (ht : mm[off + len]? = some (some 0)) :
-    mm.drop off = (mm.drop off).take len ++ some 0 :: mm.drop (off + len + 1) := by
-  have hlt : off + len < mm.length := by
-    by_cases c : off + len < mm.length
-    · exact c
-    · rw [List.getElem?_eq_none (by omega)] at ht; cases ht
-  conv => lhs; rw [← List.take_append_drop len (mm.drop off)]
-  congr 1
-  rw [List.drop_drop]
-  have : mm.drop (off + len) = mm[off + len] :: mm.drop (off + len + 1) := by
-    rw [List.drop_eq_getElem_cons hlt]
-  rw [this]
-  congr 1
-  have := List.getElem?_eq_getElem hlt
-  rw [this] at ht
-  injection ht
-
-/-- when `str[length()]` is NUL and the chars are initialised and NUL-free, the C string at
-    `data->str` is the value of the variable -/
-theorem cstrVar_eq {s : St} (h : Inv s) {v : Nat} (ht : termByte s v = some (some 0)) {c : List Nat}
-    (hc : allSome (absVar s v) = some c) (hz : ∀ x ∈ c, x ≠ 0) : cstrVar s v 0 = some c := by
-  obtain ⟨d, hd⟩ := desc_some h v
-  have hall := rd_all h hd
-  simp only [termByte, hd, Option.bind_eq_bind, Option.bind_some] at ht
-  simp only [cstrVar, hd, Option.bind_eq_bind, Option.bind_some, cstrAt, Nat.add_zero]
-  simp only [rdRange, Option.bind_eq_bind] at hall
-  cases hm : memOf s d.base with
-  | none => simp [hm] at ht
-  | some mm =>
-    simp only [hm, Option.bind_some, rdList] at ht hall ⊢
-    split at hall
-    · rename_i hle
-      injection hall with hall
-      have hoff : d.off ≤ mm.length := by omega
-      simp only [hoff, if_true]
-      rw [drop_split ht, hall, allSome_eq hc]
-      exact cstrOf_append c _ hz
-    · cases hall
-
 /-- `find(const char* str)` is `strstr` on the value of the variable -/
 theorem findS_eq {s s' : St} (h : Inv s) {v : Nat} (hv : v < s.n) {needle : List Nat} {r : Option Nat}
     (e : findS s v needle = some (s', r)) {c : List Nat} (hc : allSome (absVar s v) = some c)
